@@ -765,6 +765,15 @@ class Machine:
 
         def x_unchanged():
             return x.start == start0 and x.data.shape == data0.shape and np.array_equal(x.data, data0, equal_nan=True)
+        # a second series built on the very same array (Series.from_start_and_array keeps the caller's array): whatever
+        # is done to x afterwards must not show through in it
+        sib = sib_before = None
+        if x.start is not None and x.data.size:
+            try:
+                sib = ir.Series.from_start_and_array(x.start, x.data)
+                sib_before = (sib.start, sib.data.copy())
+            except Exception:
+                sib = None
         try:
             y, functional, pool = self.impl_apply(f, x, op, vals)
         except Exception as e:
@@ -835,6 +844,10 @@ class Machine:
         except Exception as e:
             bad("read_exception", "%s: %s" % (type(e).__name__, str(e)[:200]), error=type(e).__name__)
         # (4) isolation
+        if sib is not None:
+            res.count("sibling_on_shared_array_checked")
+            if sib.start != sib_before[0] or sib.data.shape != sib_before[1].shape or not np.array_equal(sib.data, sib_before[1], equal_nan=True):
+                bad("shared_array_modified", "a series built earlier on the same array changed when the receiver was operated on")
         for n, s in pool.items():
             fresh = build(f, pool_refs(vals)[n])
             if s.start != fresh.start or s.data.shape != fresh.data.shape or not np.array_equal(s.data, fresh.data, equal_nan=True):
@@ -910,7 +923,8 @@ def run(ctx, total, info):
     info["initial_state_names"] = sorted(init_refs(VALTAB[0]))
     info["exhaustive"] = complete
     info["floors"] = {"states": (states, 1500 if ctx.quick else 20000), "transitions": (transitions, 40000 if ctx.quick else 1000000),
-                      "mixed_frequency_rejected": (total.counters.get("mixed_frequency_rejected", 0), 100)}
+                      "mixed_frequency_rejected": (total.counters.get("mixed_frequency_rejected", 0), 100),
+                      "sibling_on_shared_array_checked": (total.counters.get("sibling_on_shared_array_checked", 0), 30000 if ctx.quick else 500000)}
 
 
 def replay(case):
